@@ -95,6 +95,9 @@ func canonIn(t *T, v *V) (In, error) {
 	if !v.Null {
 		body = b.Bytes().Body()
 	}
+	if in := v; in.K == "x" && len(body) == 0 {
+		body = zcode.Bytes{} // a non-null error value with an empty inner body
+	}
 	cv, err := OfValue(typ, body)
 	if err != nil {
 		return In{}, err
